@@ -825,4 +825,10 @@ func init() {
 	addParts("C14", part{name: "u_c12", gen: genC12, monitors: []Monitor{monC14}, labels: labelsC12, nontrivial: func(c *Case, tr *Trace) bool { return len(c.Reg) > 3 }, quick: 250, thorough: 8000})
 }
 
+func init() {
+	addParts("C07", part{name: "stress_cancel", gen: genStressCancel, exec: execStress, monitors: []Monitor{monStressSurvival("C07")}, labels: commonLabels, nontrivial: ntStress, quick: 120, thorough: 6000, race: true, procs: 16, shards: 4})
+	addParts("C08", part{name: "stress_ids", gen: genStressCancel, exec: execStress, monitors: []Monitor{monStressSurvival("C08")}, labels: commonLabels, nontrivial: ntStress, quick: 120, thorough: 6000, race: true, procs: 16, shards: 4},
+		part{name: "stress_mixed", gen: genStress, exec: execStress, monitors: []Monitor{monStressSurvival("C08")}, labels: commonLabels, nontrivial: ntStress, quick: 60, thorough: 3000, race: true, procs: 16, shards: 4})
+}
+
 var _ = strings.Join
